@@ -26,3 +26,24 @@ Fixpoint embed (items : list pitem) (ty : nat) : list ftask :=
   end.
 
 Definition par_flow (items : list pitem) : fflow := {| gparams := []; gresults := []; gtasks := embed items 0 |}.
+
+(* ---- the element closures of cff.Slice / cff.Map (templates/parallel/slice.go.tmpl:
+     for idx, val := range slice { idx := idx; val := val; task.fn = func(...) { f(idx, val) } ... })
+   The jobs run after the loop has moved on. A closure either captured its own copies
+   (the template's "idx := idx; val := val") or the loop's variables; before Go 1.22 the
+   loop has one pair of variables for all iterations, from 1.22 on one pair per iteration. *)
+Section LoopCapture.
+  Variable V : Type.
+  Variable dflt : V.
+
+  Inductive capture := OwnCopy | LoopVars.
+
+  (* what the closure built in iteration i passes to the user's function when it runs later,
+     given the value the loop's shared variables hold at that time (the last iteration's) *)
+  Definition element_args (c : capture) (per_iteration_vars : bool) (s : list V) (i : nat) : nat * V :=
+    match c with
+    | OwnCopy => (i, nth i s dflt)
+    | LoopVars => if per_iteration_vars then (i, nth i s dflt)
+                  else (length s - 1, nth (length s - 1) s dflt)
+    end.
+End LoopCapture.
